@@ -43,6 +43,7 @@ def dSem (full : Bool) (content : Option Val) : Sem where
     | .ctor 22 [], [] =>
       if m == N.is_some then .okE (.bool full) recv DLOAD
       else if m == N.is_none then .okE (.bool (!full)) recv DLOAD
+      else if m == N.deref then .okE (if full then vSome (.atom 0) else vNone) recv DLOAD
       else .unknown
     | _, _ => .unknown
 
